@@ -103,3 +103,58 @@ pub fn arg_value<'a>(args: &'a [String], name: &str) -> Option<&'a str> {
 pub fn arg_flag(args: &[String], name: &str) -> bool {
     args.iter().any(|a| a == name)
 }
+
+// -------------------------------------------------------------------------------------------------
+// Watchdog: code under test that never returns (or overflows the stack) must become data, too.
+//
+// `watchdog_start(path, secs, sync)` starts a monitor thread.  Drivers call `heartbeat(|| description)` before
+// every call of the code under test.  If no heartbeat arrives for `secs` seconds the monitor writes the last
+// description (one JSON line: what was being executed) to `path` and exits the process with status 3.
+// With `sync` every heartbeat writes its description to `path` immediately, so that after a crash of the
+// whole process (stack overflow, abort) the file names the call that was running; the python driver re-runs a
+// crashed harness in this mode.
+use std::sync::atomic::{AtomicBool, AtomicU64, Ordering};
+use std::sync::Mutex;
+
+static WD_BEAT: AtomicU64 = AtomicU64::new(0);
+static WD_ON: AtomicBool = AtomicBool::new(false);
+static WD_SYNC: AtomicBool = AtomicBool::new(false);
+static WD_DESC: Mutex<String> = Mutex::new(String::new());
+static WD_PATH: Mutex<String> = Mutex::new(String::new());
+
+fn now_ms() -> u64 {
+    std::time::SystemTime::now().duration_since(std::time::UNIX_EPOCH).map(|d| d.as_millis() as u64).unwrap_or(0)
+}
+
+pub fn watchdog_start(path: &str, secs: u64, sync: bool) {
+    *WD_PATH.lock().unwrap() = path.to_string();
+    let _ = std::fs::remove_file(path);
+    WD_BEAT.store(now_ms(), Ordering::SeqCst);
+    WD_SYNC.store(sync, Ordering::SeqCst);
+    WD_ON.store(true, Ordering::SeqCst);
+    std::thread::spawn(move || loop {
+        std::thread::sleep(std::time::Duration::from_millis(200));
+        let last = WD_BEAT.load(Ordering::SeqCst);
+        if now_ms().saturating_sub(last) > secs * 1000 {
+            let desc = WD_DESC.lock().map(|d| d.clone()).unwrap_or_default();
+            let path = WD_PATH.lock().map(|d| d.clone()).unwrap_or_default();
+            let _ = std::fs::write(&path, format!("{}\n", desc));
+            std::process::exit(3);
+        }
+    });
+}
+
+pub fn heartbeat<F: FnOnce() -> String>(desc: F) {
+    if !WD_ON.load(Ordering::Relaxed) {
+        return;
+    }
+    WD_BEAT.store(now_ms(), Ordering::SeqCst);
+    let d = desc();
+    if WD_SYNC.load(Ordering::Relaxed) {
+        let path = WD_PATH.lock().map(|d| d.clone()).unwrap_or_default();
+        let _ = std::fs::write(&path, format!("{}\n", d));
+    }
+    if let Ok(mut g) = WD_DESC.lock() {
+        *g = d;
+    }
+}
